@@ -1,5 +1,7 @@
 import DFV.Lemmas.C09ExamplesSub
 import DFV.Lemmas.C09IeeeV
+import DFV.Lemmas.C09Iff
+import DFV.Lemmas.C09CsvExamples
 /-!
 # C09 - OVF files round-trip fields and follow the OVF 1.0/2.0 format
 
@@ -278,14 +280,14 @@ theorem ovf_roundtrip_txt {α} [DecidableEq α] (c : Codec α)
     · exact V.npos 0 (by omega)
     · exact V.npos 1 (by omega)
     · exact V.npos 2 (by omega)
-  have hrows : readText (textRows c f false) (natProd [f.mesh.nAt 0, f.mesh.nAt 1, f.mesh.nAt 2]) f.nvdim
+  have hrows : readText c.nan (textRows c f false) (natProd [f.mesh.nAt 0, f.mesh.nAt 1, f.mesh.nAt 2]) f.nvdim
       = .ok (flatPayload f) := by
     unfold textRows
     simp only [Bool.false_eq_true, if_false]
     have : (flatPayload f).length / f.nvdim = natProd [f.mesh.nAt 0, f.mesh.nAt 1, f.mesh.nAt 2] := by
       rw [hcount]; exact Nat.mul_div_cancel _ V.nv
     rw [this]
-    exact readText_rows _ _ _ hnpos V.nv hcount c.zero
+    exact readText_rows _ _ _ _ hnpos V.nv hcount c.zero
   have hp := parse_txt_ok c
     { first := "# OOMMF OVF 2.0", lines := headerLines f false labels ["Text"],
       body := .text (textRows c f false) (footerLines ["Text"]) }
@@ -1435,7 +1437,7 @@ theorem reader_v1_v2_txt {α} [DecidableEq α] (c : Codec α)
   have hp := parse_txt_ok c (refWriter c v2 0 x) (refHeader v2 x) x.lo x.hi
     (fun a => x.step.getD a 0) (fun a => x.nodes.getD a 0) x.meshunit (headerOf_ref v2 x) hlt hn hc
     ["Text"] (by decide +kernel) rfl hscan x.vd (valueDim_ref c v2 0 x hv1) _ _ hbody x.values
-    (readText_rows _ _ _ hnpos hvd hcount c.zero)
+    (readText_rows _ _ _ _ hnpos hvd hcount c.zero)
   have hset : vdimsSetter reserved x.vd (labelsOf isWord (refHeader v2 x)) = .ok (Fld.defaultVdims x.vd) := by
     rw [labelsOf_ref]; rfl
   have hg := fromOvf_of_parse c isWord reserved _ _ _ _ _ x.vd hvd _ _ hp hcount _ hset
@@ -1449,18 +1451,19 @@ theorem reader_v1_v2_txt {α} [DecidableEq α] (c : Codec α)
     rw [pos_eq_flatC _ _ (x.nodes.getD 2 0)]; rfl
   rw [hpos]
 
-/-- **mumax-style text rows**: a text file whose rows carry one extra trailing entry (the blank
-mumax3 writes at the end of each row, one more empty column for the csv reader) is read to the
-same field as the file without it. -/
+/-- **mumax-style text rows**: a text file whose rows (of `valuedim >= 1` entries each) carry one
+extra trailing entry (the blank mumax3 writes at the end of each row, one more empty column for the csv
+reader) is read to the same field as the file without it. -/
 theorem reader_text_trailing_column {α} [DecidableEq α] (c : Codec α) (isWord : Char → Bool)
     (reserved : String → Bool) (F : OvfFile α) (rows : List (List α)) (footer : List String)
     (hb : F.body = .text rows footer) (x : List α → α)
-    (hu : ∀ h ws vd, scan F.lines [] = some (h, ws) → valueDim F.first h = .ok vd → ∀ r ∈ rows, r.length = vd)
+    (hu : ∀ h ws vd, scan F.lines [] = some (h, ws) → valueDim F.first h = .ok vd →
+      0 < vd ∧ ∀ r ∈ rows, r.length = vd)
     (side : Option (List (String × Region))) :
     fromOvf c isWord reserved ({ F with body := .text (rows.map fun r => r ++ [x r]) footer } : OvfFile α) side
       = fromOvf c isWord reserved F side :=
   fromOvf_text_congr c isWord reserved F rows _ footer footer hb
-    (fun h ws vd nodes hs hv => readText_trailing_column rows nodes vd x (hu h ws vd hs hv)) side
+    (fun h ws vd nodes hs hv => readText_trailing_column c.nan rows nodes vd x (hu h ws vd hs hv).1 (hu h ws vd hs hv).2) side
 
 /-- **Header lines in any order**: two files that differ only in the order of their header lines
 (foreign writers order `xmin`, `xbase`, `xnodes`, `meshunit`, ... differently; blank `#` lines may
@@ -1790,6 +1793,1123 @@ example : ∃ g, fromOvf toyCodec isWordC (fun _ => false)
   refine ⟨g, h, ?_⟩
   have := hd 0 1 0 2 (by decide) (by decide) (by decide) (by decide)
   rw [this]; rfl
+
+
+
+/-! # Second extension round
+
+## Round trips of units and labels as equivalences; what the writer accepts -/
+
+/-- **The field unit round-trips exactly when the header grammar can carry it** (`valueunits` is a
+white-space separated line, `None` encodes "no unit"): for every field and every number of written
+components, the unit recovered from the written `valueunits` value is the field's unit **iff** the
+field has no unit, or its unit is non-empty, free of white space and not the literal `None`.  Both
+directions; the three classes of D25 are exactly the complement. -/
+theorem unit_roundtrip_iff {α} (f : OField α) (extend : Bool) (hd : 0 < writeDim f extend) :
+    recoverUnit (valueUnits f extend) = f.unit ↔ UnitOk f.unit :=
+  ⟨unitOk_of_roundtrip f extend hd, fun hu => unit_roundtrip' f extend hu hd⟩
+
+/-- **Component labels round-trip exactly when they are made of word characters and distinct**: for
+every list of non-empty labels, the labels recovered from the written `valuelabels: field_<c> ...`
+value (regex `\w+|{[\w ]+}`, `convert`) are the labels written **iff** every character of every label
+is a word character (`\w`: letters, digits, `_`) and no label occurs twice. -/
+theorem labels_roundtrip_iff (isWord : Char → Bool) (W : WordClass isWord) (vs : List String)
+    (hne : ∀ v ∈ vs, v.toList ≠ []) :
+    recoverLabels isWord (String.ofList (joinSp (vs.map fun c => "field_".toList ++ c.toList))) = some vs
+      ↔ (∀ v ∈ vs, ∀ c ∈ v.toList, isWord c = true) ∧ hasDup vs = false := by
+  constructor
+  · intro h
+    exact recoverLabels_wordchars isWord (W.field '_' (by decide)) _ vs h
+  · intro ⟨hw, hd⟩
+    exact recoverLabels_written isWord W vs (fun v hv => ⟨hne v hv, hw v hv⟩) hd
+
+/-- **Labels that do not round-trip** (negative theorem; the harness records them as observations):
+a label containing any character that is not a word character - `-`, `.`, `,`, `+`, a brace, a blank -
+is never recovered, whatever the other labels are: the labels the reader gets (if any) are not the
+labels of the field.  (The regex only ever yields word characters, braces and blanks, and `convert`
+drops the braces and turns blanks into `_`.) -/
+theorem label_nonword_not_roundtrip (isWord : Char → Bool) (W : WordClass isWord) (vs : List String)
+    (v : String) (hv : v ∈ vs) (c : Char) (hc : c ∈ v.toList) (hnw : isWord c = false) (text : String) :
+    recoverLabels isWord text ≠ some vs := by
+  intro h
+  have := (recoverLabels_wordchars isWord (W.field '_' (by decide)) text vs h).1 v hv c hc
+  rw [hnw] at this; cases this
+
+/-- such labels exist: `a-b` has the non-word character `-` -/
+example : isWordC '-' = false ∧ '-' ∈ "a-b".toList := by decide
+
+/-- **What the writer accepts, as an equivalence**: `_to_ovf` produces a file **iff** the mesh is
+three-dimensional, the representation is one of `txt`, `bin4`, `bin8`, all axes carry the same unit,
+a field with several components has labels, and - for `extend_scalar=True` on a one-component field in a
+binary representation - the array has one value per cell.  (`writer_rejects` is the "only if" half
+clause by clause.) -/
+theorem writer_accepts_iff {α} (c : Codec α) (f : OField α) (rep : String) (extend : Bool) :
+    (∃ F, toOvf c f rep extend = .ok F) ↔
+      f.mesh.region.ndim = 3 ∧ (rep = "txt" ∨ rep = "bin4" ∨ rep = "bin8") ∧
+      allSame f.mesh.region.units = true ∧ (f.nvdim = 1 ∨ f.vdims ≠ none) ∧
+      (extend = true → f.nvdim = 1 → rep ≠ "txt" → natProd f.arr.shape = natProd f.mesh.n) := by
+  suffices H : ∀ R : Prop, R = (f.mesh.region.ndim = 3 ∧ (rep = "txt" ∨ rep = "bin4" ∨ rep = "bin8") ∧
+      allSame f.mesh.region.units = true ∧ (f.nvdim = 1 ∨ f.vdims ≠ none) ∧
+      (extend = true → f.nvdim = 1 → rep ≠ "txt" → natProd f.arr.shape = natProd f.mesh.n)) →
+      ((∃ F, toOvf c f rep extend = .ok F) ↔ R) from H _ rfl
+  intro R hR
+  unfold toOvf toOvfE
+  by_cases hnd : f.mesh.region.ndim = 3
+  swap
+  · rw [if_pos hnd, hR]
+    constructor
+    · rintro ⟨F, h⟩; cases h
+    · intro h; exact absurd h.1 hnd
+  rw [if_neg (by simpa using hnd)]
+  -- labels
+  have hlab : (∃ l, valueLabels f (extend && f.nvdim == 1) = .ok l) ↔ (f.nvdim = 1 ∨ f.vdims ≠ none) := by
+    unfold valueLabels writeDim
+    by_cases h1 : f.nvdim = 1
+    · cases extend <;> simp [h1]
+    · have : (f.nvdim == 1) = false := by simpa using h1
+      simp only [this, Bool.and_false, Bool.false_eq_true, if_false, h1, false_or]
+      cases f.vdims <;> simp
+  cases hl : valueLabels f (extend && f.nvdim == 1) with
+  | error e =>
+    simp only
+    rw [hR]
+    constructor
+    · rintro ⟨F, h⟩; cases h
+    · intro h
+      obtain ⟨l, hl'⟩ := hlab.mpr h.2.2.2.1
+      rw [hl] at hl'; cases hl'
+  | ok labels =>
+    have hlab' : f.nvdim = 1 ∨ f.vdims ≠ none := hlab.mp ⟨labels, hl⟩
+    simp only
+    by_cases hrep : rep = "txt" ∨ rep = "bin4" ∨ rep = "bin8"
+    swap
+    · have : repWords rep = .error .value := by
+        unfold repWords
+        split
+        · exact absurd (Or.inr (Or.inl rfl)) hrep
+        · exact absurd (Or.inr (Or.inr rfl)) hrep
+        · exact absurd (Or.inl rfl) hrep
+        · rfl
+      rw [this, hR]
+      constructor
+      · rintro ⟨F, h⟩; cases h
+      · intro h; exact absurd h.2.1 hrep
+    by_cases hu : allSame f.mesh.region.units = true
+    swap
+    · have hu' : allSame f.mesh.region.units = false := by simpa using hu
+      rcases hrep with rfl | rfl | rfl <;>
+      · simp only [repWords, hu', Bool.not_false, if_true]
+        rw [hR]
+        constructor
+        · rintro ⟨F, h⟩; cases h
+        · intro h; exact absurd h.2.2.1 hu
+    rcases hrep with rfl | rfl | rfl
+    · simp only [repWords, hu, Bool.not_true, Bool.false_eq_true, if_false, repWidth]
+      rw [hR]
+      exact ⟨fun _ => ⟨hnd, Or.inl rfl, hu, hlab', fun _ _ h => absurd rfl h⟩, fun _ => ⟨_, rfl⟩⟩
+    · simp only [repWords, hu, Bool.not_true, Bool.false_eq_true, if_false, repWidth]
+      rw [if_neg (by decide)]
+      unfold binValues
+      by_cases he : (extend && f.nvdim == 1) = true
+      · simp only [he, if_true]
+        have he' : extend = true ∧ f.nvdim = 1 := by simpa using he
+        by_cases hs : natProd f.arr.shape = natProd f.mesh.n
+        · rw [if_neg (by simpa using hs), hR]
+          exact ⟨fun _ => ⟨hnd, Or.inr (Or.inl rfl), hu, hlab', fun _ _ _ => hs⟩, fun _ => ⟨_, rfl⟩⟩
+        · rw [if_pos hs, hR]
+          constructor
+          · rintro ⟨F, h⟩; cases h
+          · intro h; exact absurd (h.2.2.2.2 he'.1 he'.2 (by decide)) hs
+      · have he0 : (extend && f.nvdim == 1) = false := by simpa using he
+        simp only [he0, Bool.false_eq_true, if_false]
+        rw [hR]
+        refine ⟨fun _ => ⟨hnd, Or.inr (Or.inl rfl), hu, hlab', fun h1 h2 _ => ?_⟩, fun _ => ⟨_, rfl⟩⟩
+        exfalso; apply he; simp [h1, h2]
+    · simp only [repWords, hu, Bool.not_true, Bool.false_eq_true, if_false, repWidth]
+      rw [if_neg (by decide)]
+      unfold binValues
+      by_cases he : (extend && f.nvdim == 1) = true
+      · simp only [he, if_true]
+        have he' : extend = true ∧ f.nvdim = 1 := by simpa using he
+        by_cases hs : natProd f.arr.shape = natProd f.mesh.n
+        · rw [if_neg (by simpa using hs), hR]
+          exact ⟨fun _ => ⟨hnd, Or.inr (Or.inr rfl), hu, hlab', fun _ _ _ => hs⟩, fun _ => ⟨_, rfl⟩⟩
+        · rw [if_pos hs, hR]
+          constructor
+          · rintro ⟨F, h⟩; cases h
+          · intro h; exact absurd (h.2.2.2.2 he'.1 he'.2 (by decide)) hs
+      · have he0 : (extend && f.nvdim == 1) = false := by simpa using he
+        simp only [he0, Bool.false_eq_true, if_false]
+        rw [hR]
+        refine ⟨fun _ => ⟨hnd, Or.inr (Or.inr rfl), hu, hlab', fun h1 h2 _ => ?_⟩, fun _ => ⟨_, rfl⟩⟩
+        exfalso; apply he; simp [h1, h2]
+
+
+/-! ## OVF 1.0 against OVF 2.0 -/
+
+
+/-- **`valuedim` by version**: an OVF 2.0 file (first line contains `2.0`) has as many components as
+its `valuedim` line says, and is refused without one; every other file (OVF 1.0) has three, whatever
+its header says about `valuedim`. -/
+theorem valuedim_by_version (first : String) (h : List (String × HVal)) :
+    (isV2 first = true → ∀ vd, (valueDim first h = .ok vd ↔ hget h "valuedim" = .ok (.nat vd))) ∧
+    (isV2 first = true → (∀ v, hget h "valuedim" ≠ .ok v) → ∃ e, valueDim first h = .error e) ∧
+    (isV2 first = false → valueDim first h = .ok 3) := by
+  refine ⟨?_, ?_, ?_⟩
+  · intro hv vd
+    unfold valueDim hnat
+    rw [if_pos hv]
+    cases hg : hget h "valuedim" with
+    | error e => simp [bind, Except.bind]
+    | ok v =>
+      cases v with
+      | nat n => simp [bind, Except.bind, HVal.toNat]
+      | num q => simp [bind, Except.bind, HVal.toNat]
+      | str s => simp [bind, Except.bind, HVal.toNat]
+  · intro hv hno
+    unfold valueDim hnat
+    rw [if_pos hv]
+    cases hg : hget h "valuedim" with
+    | error e => exact ⟨e, rfl⟩
+    | ok v => exact absurd hg (hno v)
+  · intro hv
+    unfold valueDim
+    rw [if_neg (by simp [hv])]
+
+/-- the two first lines: `# OOMMF OVF 2.0` is version 2, `# OOMMF: rectangular mesh v1.0` is not -/
+example : isV2 "# OOMMF OVF 2.0" = true ∧ isV2 "# OOMMF: rectangular mesh v1.0" = false := by
+  constructor <;> decide +kernel
+
+/-- **Byte order by version** (the driver's IEEE codec): the reader takes the check value of an
+OVF 2.0 file as little endian and that of an OVF 1.0 file as big endian, and a file that carries the
+check value of its width in the *other* byte order - a 1.0 file written little endian, a 2.0 file
+written big endian - is never read into a field, whatever follows. -/
+theorem wrong_endian_rejected (isWord : Char → Bool) (reserved : String → Bool) (F : OvfFile Rat)
+    (side : Option (List (String × Region))) (bytes : List Nat) (hbody : F.body = .bin bytes)
+    (hbytes : ∀ x ∈ bytes, x < 256)
+    (hw : ∀ h ws w, scan F.lines [] = some (h, ws) → dataWidth ws = some w →
+      bytes.take w = ieee.enc (!isV2 F.first) w (ieee.magic w)) :
+    ∃ e, fromOvf ieee isWord reserved F side = .error e := by
+  cases hres : fromOvf ieee isWord reserved F side with
+  | error e => exact ⟨e, rfl⟩
+  | ok g =>
+    exfalso
+    obtain ⟨p, mesh, arr, hp, hm, ha⟩ := fromOvf_ok_inv ieee isWord reserved F side g hres
+    obtain ⟨ws, nodes, hscan, hvd, hmesh, hflat⟩ := parse_ok_inv ieee F p hp
+    unfold readBody at hflat
+    rw [hbody] at hflat
+    simp only at hflat
+    split at hflat
+    · cases hd : dataWidth ws with
+      | none =>
+        unfold parse at hp
+        rw [hscan] at hp
+        simp only at hp
+        rename_i hb
+        rw [hb, hd] at hp
+        split at hp
+        · cases hp
+        · simp at hp
+      | some w =>
+        rw [hd] at hflat
+        simp only [Option.getD_some] at hflat
+        obtain ⟨hle, hw48, hmag, _⟩ := readBin_ok_inv ieee _ w bytes _ _ _ hflat
+        have h1 := check_value_exact (isV2 F.first) w hw48 (bytes.take w)
+          (by rw [List.length_take]; omega) (fun x hx => hbytes x (List.mem_of_mem_take hx)) hmag
+        rw [hw p.header ws w hscan hd] at h1
+        rcases hw48 with rfl | rfl <;> cases hv : isV2 F.first <;> rw [hv] at h1 <;> revert h1 <;> decide +kernel
+    · cases hflat
+
+
+/-! ## Acceptance as an equivalence -/
+/-- **A binary file with a consistent header is accepted exactly when it is well-formed** (rejected
+⇔ malformed, both directions, any codec): given a header whose `min / max / stepsize / nodes` lines
+describe one mesh, a data line `Binary w` and `valuedim` components, the reader returns a field
+**iff** the width is 4 or 8, the first `w` bytes of the data section decode (in the byte order of the
+file's version) to the check value of that width, there is at least one component, the data section
+holds the check value and all `prod(nodes)·valuedim` values (`w·(1 + prod·valuedim)` bytes), and the
+labels pass the `Field` constructor. -/
+theorem binary_accepted_iff {α} [DecidableEq α] (c : Codec α) (isWord : Char → Bool) (reserved : String → Bool)
+    (F : OvfFile α) (h : List (String × HVal)) (lo hi cell : Nat → Rat) (n : Nat → Nat) (mu : String)
+    (H : HeaderOf h lo hi cell n mu)
+    (hlt : ∀ a, a < 3 → lo a < hi a) (hn : ∀ a, a < 3 → 0 < n a)
+    (hc : ∀ a, a < 3 → cell a = (hi a - lo a) / (n a : Rat))
+    (ws : List String) (hscan : scan F.lines [] = some (h, ws)) (hb : isBinary ws = true)
+    (w : Nat) (hw : dataWidth ws = some w) (vd : Nat) (hvdim : valueDim F.first h = .ok vd)
+    (bytes : List Byte) (hbody : F.body = .bin bytes) :
+    (∃ g, fromOvf c isWord reserved F none = .ok g) ↔
+      (w = 4 ∨ w = 8) ∧ c.dec (isV2 F.first) w (bytes.take w) = c.magic w ∧ 0 < vd ∧
+      w * (1 + natProd [n 0, n 1, n 2] * vd) ≤ bytes.length ∧
+      (∃ vd', vdimsSetter reserved vd (labelsOf isWord h) = .ok vd') := by
+  have hp := parse_bin_eq c F h lo hi cell n mu H hlt hn hc ws hscan hb w hw vd hvdim bytes hbody
+  have hmn : (meshOf lo hi n mu).n = [n 0, n 1, n 2] := rfl
+  constructor
+  · rintro ⟨g, hg⟩
+    obtain ⟨p, mesh, arr, hp', hm, ha⟩ := fromOvf_ok_inv c isWord reserved F none g hg
+    rw [hp] at hp'
+    cases hr : readBin c (isV2 F.first) w bytes (natProd [n 0, n 1, n 2] * vd) vd with
+    | error e => rw [hr] at hp'; cases hp'
+    | ok flat =>
+      rw [hr] at hp'
+      injection hp' with hp'
+      subst hp'
+      obtain ⟨h1, h2, h3, h4, h5, rfl⟩ := (readBin_ok_iff c _ w bytes _ vd flat).mp hr
+      have hw0 : 0 < w := by rcases h2 with rfl | rfl <;> omega
+      simp only [loadSide] at hm
+      injection hm with hm
+      subst hm
+      have ha0 := ha
+      unfold unflatten at ha
+      split at ha
+      · cases ha
+      · rename_i hlen
+        simp only [hmn, natProd_rev3, fromfile_length, List.length_drop, ne_eq, not_not] at hlen
+        refine ⟨h2, h3, by omega, ?_, ?_⟩
+        · have : natProd [n 0, n 1, n 2] * vd ≤ (bytes.length - w) / w := by omega
+          rw [Nat.le_div_iff_mul_le hw0] at this
+          have e : w * (1 + natProd [n 0, n 1, n 2] * vd) = natProd [n 0, n 1, n 2] * vd * w + w := by ring
+          omega
+        · unfold fromOvf at hg
+          rw [hp, hr] at hg
+          simp only [loadSide] at hg
+          rw [show unflatten (meshOf lo hi n mu).n vd
+            (fromfile c (isV2 F.first) w (bytes.drop w) (natProd [n 0, n 1, n 2] * vd)) c.zero = .ok arr from ha0] at hg
+          simp only at hg
+          split at hg
+          · cases hg
+          · split at hg
+            · cases hg
+            · rename_i vd' hv; exact ⟨vd', hv⟩
+  · rintro ⟨h2, h3, h4, h5, vd', hv⟩
+    have hw0 : 0 < w := by rcases h2 with rfl | rfl <;> omega
+    have hle : w ≤ bytes.length := by
+      have : w * 1 ≤ w * (1 + natProd [n 0, n 1, n 2] * vd) := Nat.mul_le_mul_left _ (by omega)
+      omega
+    have hcnt : natProd [n 0, n 1, n 2] * vd ≤ (bytes.length - w) / w := by
+      rw [Nat.le_div_iff_mul_le hw0]
+      have e : w * (1 + natProd [n 0, n 1, n 2] * vd) = natProd [n 0, n 1, n 2] * vd * w + w := by ring
+      omega
+    have hflen : (fromfile c (isV2 F.first) w (bytes.drop w) (natProd [n 0, n 1, n 2] * vd)).length
+        = natProd [n 0, n 1, n 2] * vd := by
+      rw [fromfile_length, List.length_drop]; omega
+    have hr : readBin c (isV2 F.first) w bytes (natProd [n 0, n 1, n 2] * vd) vd
+        = .ok (fromfile c (isV2 F.first) w (bytes.drop w) (natProd [n 0, n 1, n 2] * vd)) :=
+      (readBin_ok_iff c _ w bytes _ vd _).mpr
+        ⟨hle, h2, h3, by omega, by rw [hflen]; exact Nat.mul_mod_left _ _, rfl⟩
+    rw [hr] at hp
+    exact ⟨_, fromOvf_of_parse c isWord reserved F lo hi n mu vd h4 _ h hp hflen vd' hv⟩
+
+/-- **Every header line the reader needs** (refusal of incomplete headers, contrapositive form): a
+file that is read into a field has a data line, and before it the nine lines `xmin .. zmax`,
+`xstepsize .. zstepsize` with numbers, `xnodes .. znodes` with counts, a `meshunit` line and - for an
+OVF 2.0 file - a `valuedim` line with a count.  A file that lacks any of them, or has text where a
+number belongs, is rejected. -/
+theorem accepted_has_keys {α} [DecidableEq α] (c : Codec α) (isWord : Char → Bool) (reserved : String → Bool)
+    (F : OvfFile α) (side : Option (List (String × Region))) (g : OField α)
+    (hg : fromOvf c isWord reserved F side = .ok g) :
+    ∃ h ws, scan F.lines [] = some (h, ws) ∧
+      (∀ k ∈ ["xmin", "ymin", "zmin", "xmax", "ymax", "zmax", "xstepsize", "ystepsize", "zstepsize"],
+        ∃ q, hnum h k = .ok q) ∧
+      (∀ k ∈ ["xnodes", "ynodes", "znodes"], ∃ m, hnat h k = .ok m) ∧
+      (∃ v, hget h "meshunit" = .ok v) ∧
+      (isV2 F.first = true → ∃ vd, hnat h "valuedim" = .ok vd) := by
+  obtain ⟨p, mesh, arr, hp, _, _⟩ := fromOvf_ok_inv c isWord reserved F side g hg
+  obtain ⟨ws, _, hscan, hvd, hmesh, _⟩ := parse_ok_inv c F p hp
+  obtain ⟨nodes, hnodes⟩ := parse_ok_nodes c F p hp
+  obtain ⟨⟨l1, h1⟩, ⟨l2, h2⟩, ⟨l3, h3⟩, hmu⟩ := readMesh_ok_inv p.header p.mesh hmesh
+  obtain ⟨a1, a2, a3⟩ := hnums_ok_inv _ _ _ _ _ h1
+  obtain ⟨b1, b2, b3⟩ := hnums_ok_inv _ _ _ _ _ h2
+  obtain ⟨c1, c2, c3⟩ := hnums_ok_inv _ _ _ _ _ h3
+  obtain ⟨d1, d2, d3⟩ := hnats_ok_inv _ _ _ _ _ hnodes
+  refine ⟨p.header, ws, hscan, ?_, ?_, hmu, ?_⟩
+  · intro k hk
+    simp only [List.mem_cons, List.mem_nil_iff, or_false] at hk
+    rcases hk with rfl | rfl | rfl | rfl | rfl | rfl | rfl | rfl | rfl <;> assumption
+  · intro k hk
+    simp only [List.mem_cons, List.mem_nil_iff, or_false] at hk
+    rcases hk with rfl | rfl | rfl <;> assumption
+  · intro hv
+    unfold valueDim at hvd
+    rw [if_pos hv] at hvd
+    exact ⟨_, hvd⟩
+
+/-- ... for instance a file without an `xmin` line -/
+theorem missing_key_rejected {α} [DecidableEq α] (c : Codec α) (isWord : Char → Bool) (reserved : String → Bool)
+    (F : OvfFile α) (side : Option (List (String × Region))) (k : String)
+    (hk : k ∈ ["xmin", "ymin", "zmin", "xmax", "ymax", "zmax", "xstepsize", "ystepsize", "zstepsize",
+               "xnodes", "ynodes", "znodes", "meshunit"])
+    (hno : ∀ l ∈ F.lines, ∀ v, l ≠ .kv k v) :
+    ∃ e, fromOvf c isWord reserved F side = .error e := by
+  cases hres : fromOvf c isWord reserved F side with
+  | error e => exact ⟨e, rfl⟩
+  | ok g =>
+    exfalso
+    obtain ⟨h, ws, hscan, hnum', hnat', hmu, _⟩ := accepted_has_keys c isWord reserved F side g hres
+    -- the key is in the dictionary, so some line carried it
+    have key : ∀ (ls : List HLine) (acc : List (String × HVal)) h ws, scan ls acc = some (h, ws) →
+        ∀ v, hget h k = .ok v → (∃ v', HLine.kv k v' ∈ ls) ∨ (∃ v', (k, v') ∈ acc) := by
+      intro ls
+      induction ls with
+      | nil => intro acc h ws hs; cases hs
+      | cons l ls ih =>
+        intro acc h ws hs v hv
+        cases l with
+        | beginData w =>
+          simp only [scan] at hs
+          injection hs with hs
+          injection hs with hs1 _
+          subst hs1
+          right
+          unfold hget at hv
+          split at hv
+          · rename_i p hp
+            have := List.find?_some hp
+            have hm := List.mem_of_find?_eq_some hp
+            simp only [beq_iff_eq] at this
+            exact ⟨p.2, by rw [← this]; exact hm⟩
+          · cases hv
+        | other =>
+          rcases ih acc h ws hs v hv with ⟨v', h1⟩ | h2
+          · exact Or.inl ⟨v', by simp [h1]⟩
+          · exact Or.inr h2
+        | kv k' v' =>
+          rcases ih ((k', v') :: acc) h ws hs v hv with ⟨v'', h1⟩ | ⟨v'', h2⟩
+          · exact Or.inl ⟨v'', by simp [h1]⟩
+          · rcases List.mem_cons.mp h2 with h2 | h2
+            · injection h2 with e1 e2
+              subst e1
+              exact Or.inl ⟨v', by simp⟩
+            · exact Or.inr ⟨v'', h2⟩
+    have hget' : ∃ v, hget h k = .ok v := by
+      simp only [List.mem_cons, List.mem_nil_iff, or_false] at hk
+      have num_get : ∀ k', (∃ q, hnum h k' = .ok q) → ∃ v, hget h k' = .ok v := by
+        intro k' ⟨q, hq⟩
+        unfold hnum at hq
+        cases hgk : hget h k' with
+        | error e => rw [hgk] at hq; cases hq
+        | ok v => exact ⟨v, rfl⟩
+      have nat_get : ∀ k', (∃ q, hnat h k' = .ok q) → ∃ v, hget h k' = .ok v := by
+        intro k' ⟨q, hq⟩
+        unfold hnat at hq
+        cases hgk : hget h k' with
+        | error e => rw [hgk] at hq; cases hq
+        | ok v => exact ⟨v, rfl⟩
+      rcases hk with rfl | rfl | rfl | rfl | rfl | rfl | rfl | rfl | rfl | rfl | rfl | rfl | rfl
+      · exact num_get _ (hnum' _ (by decide))
+      · exact num_get _ (hnum' _ (by decide))
+      · exact num_get _ (hnum' _ (by decide))
+      · exact num_get _ (hnum' _ (by decide))
+      · exact num_get _ (hnum' _ (by decide))
+      · exact num_get _ (hnum' _ (by decide))
+      · exact num_get _ (hnum' _ (by decide))
+      · exact num_get _ (hnum' _ (by decide))
+      · exact num_get _ (hnum' _ (by decide))
+      · exact nat_get _ (hnat' _ (by decide))
+      · exact nat_get _ (hnat' _ (by decide))
+      · exact nat_get _ (hnat' _ (by decide))
+      · exact hmu
+    obtain ⟨v, hv⟩ := hget'
+    rcases key F.lines [] h ws hscan v hv with ⟨v', h1⟩ | ⟨v', h2⟩
+    · exact hno _ h1 v' rfl
+    · cases h2
+
+
+
+/-! ## Foreign (reference-writer) files as bytes -/
+
+
+/-- **Foreign binary files at byte level**: the bytes of a file of the independent OVF 1.0 (big
+endian, three components, no `valuedim`) or OVF 2.0 (little endian) writer - first line, header lines
+in UTF-8 with numbers formatted by `repr`, data line, check value, payload, footer - are read by the
+byte-level reader to that writer's content: node counts, region from `min / max`, mesh unit, component
+count, default labels, no unit, and every value in its own cell and component (x fastest in the
+file; float32-rounded for 4-byte files). -/
+theorem reader_v1_v2_bytes {α} [DecidableEq α] (N : NumIO) (LN : N.Lawful)
+    (tb : List Byte → List (List α) × List String) (c : Codec α) (narrow : α → α) (L : c.Lawful narrow)
+    (isWord : Char → Bool) (reserved : String → Bool) (v2 : Bool) (w : Nat) (hw : w = 4 ∨ w = 8)
+    (x : Content α) (hm : TextOk x.meshunit.toList)
+    (hstep : ∀ a, a < 3 → 0 < x.step.getD a 0) (hn : ∀ a, a < 3 → 0 < x.nodes.getD a 0)
+    (hvd : 0 < x.vd) (hv1 : v2 = false → x.vd = 3)
+    (hcount : x.values.length = natProd [x.nodes.getD 0 0, x.nodes.getD 1 0, x.nodes.getD 2 0] * x.vd) :
+    ∃ g, fromOvfBytes N tb c isWord reserved (fileBytes N (refWriter c v2 w x)) none = .ok g ∧
+      g.mesh.n = [x.nodes.getD 0 0, x.nodes.getD 1 0, x.nodes.getD 2 0] ∧
+      g.mesh.region.pmin = [x.lo 0, x.lo 1, x.lo 2] ∧ g.mesh.region.pmax = [x.hi 0, x.hi 1, x.hi 2] ∧
+      g.mesh.region.units = [x.meshunit, x.meshunit, x.meshunit] ∧ g.nvdim = x.vd ∧
+      g.vdims = Fld.defaultVdims x.vd ∧ g.unit = none ∧
+      ∀ i j k cc, i < x.nodes.getD 0 0 → j < x.nodes.getD 1 0 → k < x.nodes.getD 2 0 → cc < x.vd →
+        g.arr.get [i, j, k, cc]
+          = conv narrow w (x.values.getD (pos (x.nodes.getD 0 0) (x.nodes.getD 1 0) x.vd i j k cc) c.zero) := by
+  obtain ⟨g, hg, rest⟩ := reader_v1_v2 c narrow L isWord reserved v2 w hw x hstep hn hvd hv1 hcount
+  have hw0 : w ≠ 0 := by rcases hw with rfl | rfl <;> omega
+  refine ⟨g, ?_, rest⟩
+  rw [fromOvfBytes_bin N LN tb c isWord reserved _ _ _ (refWriter_fileOk N c v2 w x hm)
+    (isBinary_refWords w hw) _ (refWriter_body_bin c v2 w hw0 x) none]
+  exact hg
+
+/-- **Every truncation point of a foreign binary file**: the bytes of a file of the independent
+OVF 1.0 / 2.0 writer cut after any number `t` of bytes short of the end of the payload - in the first
+line, between or inside header lines, in the data line, inside the check value, inside or between
+values - are never read into a field. -/
+theorem foreign_truncation_rejected {α} [DecidableEq α] (N : NumIO) (LN : N.Lawful)
+    (tb : List Byte → List (List α) × List String) (htb : (tb []).1 = [])
+    (c : Codec α) (isWord : Char → Bool) (reserved : String → Bool) (v2 : Bool) (w : Nat) (hw : w = 4 ∨ w = 8)
+    (x : Content α) (hm : TextOk x.meshunit.toList)
+    (hstep : ∀ a, a < 3 → 0 < x.step.getD a 0) (hn : ∀ a, a < 3 → 0 < x.nodes.getD a 0)
+    (hv1 : v2 = false → x.vd = 3)
+    (t : Nat) (ht : t < (headerBytes N (refWriter c v2 w x)).length
+      + w * (1 + natProd [x.nodes.getD 0 0, x.nodes.getD 1 0, x.nodes.getD 2 0] * x.vd))
+    (side : Option (List (String × Region))) :
+    ∃ e, fromOvfBytes N tb c isWord reserved ((fileBytes N (refWriter c v2 w x)).take t) side = .error e := by
+  have hw0 : w ≠ 0 := by rcases hw with rfl | rfl <;> omega
+  have K := refWriter_fileOk N c v2 w x hm
+  have hb := refWriter_body_bin c v2 w hw0 x
+  generalize hbb : (c.enc v2 w (c.magic w) ++ (x.values.flatMap (c.enc v2 w)
+      ++ 10 :: footerBytes ["Binary", toString w])) = b at hb
+  have hfile : fileBytes N (refWriter c v2 w x) = headerBytes N (refWriter c v2 w x) ++ b := by
+    unfold fileBytes; rw [hb]
+  rw [hfile]
+  rcases take_append_cases (headerBytes N (refWriter c v2 w x)) b t with ⟨hlt, e⟩ | ⟨hge, e⟩
+  · rw [e]
+    exact header_prefix_rejected N LN tb htb c isWord reserved _ _ _ K _ (List.take_prefix _ _)
+      (fun h => by
+        have := congrArg List.length h
+        rw [List.length_take] at this
+        omega) side
+  · rw [e]
+    have K' : FileOk N ({ refWriter c v2 w x with
+        body := Body.bin (b.take (t - (headerBytes N (refWriter c v2 w x)).length)) } : OvfFile α)
+        (refHs v2 x) (refWords w) :=
+      { lines := K.lines, first := K.first, ok := K.ok, words := K.words }
+    have := fromOvfBytes_bin N LN tb c isWord reserved
+      ({ refWriter c v2 w x with
+        body := Body.bin (b.take (t - (headerBytes N (refWriter c v2 w x)).length)) } : OvfFile α)
+      _ _ K' (isBinary_refWords w hw) _ rfl side
+    unfold fileBytes at this
+    simp only at this
+    have hh : headerBytes N ({ refWriter c v2 w x with
+        body := Body.bin (b.take (t - (headerBytes N (refWriter c v2 w x)).length)) } : OvfFile α)
+        = headerBytes N (refWriter c v2 w x) := rfl
+    rw [hh] at this
+    rw [this]
+    apply short_block_rejected c isWord reserved _ side _ rfl
+    intro h ws mesh vd w' hscan hmesh hvd hw'
+    simp only at hscan hvd
+    have hsr := scan_ref c v2 w x
+    rw [if_neg hw0] at hsr
+    rw [hsr] at hscan
+    injection hscan with hscan
+    injection hscan with h1 h2
+    subst h1; subst h2
+    rw [valueDim_ref c v2 w x hv1] at hvd
+    injection hvd with hvd
+    have hlt : ∀ a, a < 3 → x.lo a < x.hi a := by
+      intro a ha
+      have h1 := hstep a ha
+      have h2 : (0 : Rat) < (x.nodes.getD a 0 : Rat) := by exact_mod_cast hn a ha
+      unfold Content.lo Content.hi
+      have := mul_pos h2 h1
+      linarith
+    have hc : ∀ a, a < 3 → x.step.getD a 0 = (x.hi a - x.lo a) / ((x.nodes.getD a 0 : Nat) : Rat) := by
+      intro a ha
+      have h2 : ((x.nodes.getD a 0 : Nat) : Rat) ≠ 0 := by
+        have : (0 : Rat) < (x.nodes.getD a 0 : Rat) := by exact_mod_cast hn a ha
+        exact ne_of_gt this
+      unfold Content.lo Content.hi
+      field_simp
+      ring
+    rw [readMesh_ok _ _ _ _ _ _ (headerOf_ref v2 x) hlt hn hc] at hmesh
+    injection hmesh with hmesh
+    rw [(width_words w hw).2] at hw'
+    injection hw' with hw'
+    subst hw'; subst hvd; subst hmesh
+    have : (meshOf x.lo x.hi (fun a => x.nodes.getD a 0) x.meshunit).n
+        = [x.nodes.getD 0 0, x.nodes.getD 1 0, x.nodes.getD 2 0] := rfl
+    rw [this]
+    have := List.length_take_le (t - (headerBytes N (refWriter c v2 w x)).length) b
+    omega
+
+
+/-- ... and from the end of the payload on (before the newline, inside the footer) a cut changes
+nothing: the cut foreign file reads to exactly what the whole file reads to. -/
+theorem foreign_cut_after_payload_same_field {α} [DecidableEq α] (N : NumIO) (LN : N.Lawful)
+    (tb : List Byte → List (List α) × List String)
+    (c : Codec α) (isWord : Char → Bool) (reserved : String → Bool) (v2 : Bool) (w : Nat) (hw : w = 4 ∨ w = 8)
+    (x : Content α) (hm : TextOk x.meshunit.toList) (hv1 : v2 = false → x.vd = 3)
+    (t : Nat) (ht : (headerBytes N (refWriter c v2 w x)).length
+      + w * (1 + natProd [x.nodes.getD 0 0, x.nodes.getD 1 0, x.nodes.getD 2 0] * x.vd) ≤ t)
+    (side : Option (List (String × Region))) :
+    fromOvfBytes N tb c isWord reserved ((fileBytes N (refWriter c v2 w x)).take t) side
+      = fromOvfBytes N tb c isWord reserved (fileBytes N (refWriter c v2 w x)) side := by
+  have hw0 : w ≠ 0 := by rcases hw with rfl | rfl <;> omega
+  have K := refWriter_fileOk N c v2 w x hm
+  have hb := refWriter_body_bin c v2 w hw0 x
+  generalize hbb : (c.enc v2 w (c.magic w) ++ (x.values.flatMap (c.enc v2 w)
+      ++ 10 :: footerBytes ["Binary", toString w])) = b at hb
+  have hfile : fileBytes N (refWriter c v2 w x) = headerBytes N (refWriter c v2 w x) ++ b := by
+    unfold fileBytes; rw [hb]
+  rw [fromOvfBytes_bin N LN tb c isWord reserved _ _ _ K (isBinary_refWords w hw) b hb side, hfile]
+  rcases take_append_cases (headerBytes N (refWriter c v2 w x)) b t with ⟨hlt, _⟩ | ⟨hge, e⟩
+  · omega
+  · rw [e]
+    have K' : FileOk N ({ refWriter c v2 w x with
+        body := Body.bin (b.take (t - (headerBytes N (refWriter c v2 w x)).length)) } : OvfFile α)
+        (refHs v2 x) (refWords w) :=
+      { lines := K.lines, first := K.first, ok := K.ok, words := K.words }
+    have := fromOvfBytes_bin N LN tb c isWord reserved
+      ({ refWriter c v2 w x with
+        body := Body.bin (b.take (t - (headerBytes N (refWriter c v2 w x)).length)) } : OvfFile α)
+      _ _ K' (isBinary_refWords w hw) _ rfl side
+    unfold fileBytes at this
+    simp only at this
+    have hh : headerBytes N ({ refWriter c v2 w x with
+        body := Body.bin (b.take (t - (headerBytes N (refWriter c v2 w x)).length)) } : OvfFile α)
+        = headerBytes N (refWriter c v2 w x) := rfl
+    rw [hh] at this
+    rw [this]
+    apply fromOvf_cut c isWord reserved _ b hb
+    intro h ws vd nodes hscan hvd hnodes
+    have hsr := scan_ref c v2 w x
+    rw [if_neg hw0] at hsr
+    rw [hsr] at hscan
+    injection hscan with hscan
+    injection hscan with h1 h2
+    subst h1; subst h2
+    rw [valueDim_ref c v2 w x hv1] at hvd
+    injection hvd with hvd
+    rw [(headerOf_ref v2 x).nodes] at hnodes
+    injection hnodes with hnodes
+    subst hvd; subst hnodes
+    rw [(width_words w hw).2, Option.getD_some]
+    omega
+
+/-- the foreign-file byte theorems apply to `exContent`; a cut 30 bytes into the file lies below the
+bound -/
+example : TextOk exContent.meshunit.toList ∧ ∃ e, fromOvfBytes toyNum toyText toyCodec isWordC (fun _ => false)
+    ((fileBytes toyNum (refWriter toyCodec false 8 exContent)).take 30) none = .error e := by
+  refine ⟨textOk_of_B _ (by decide), ?_⟩
+  exact foreign_truncation_rejected toyNum toyNum_lawful toyText rfl toyCodec isWordC (fun _ => false) false 8
+    (Or.inr rfl) exContent (textOk_of_B _ (by decide))
+    (by intro a ha; match a, ha with | 0, _ => decide +kernel | 1, _ => decide +kernel | 2, _ => decide +kernel)
+    (by intro a ha; match a, ha with | 0, _ => decide | 1, _ => decide | 2, _ => decide)
+    (fun _ => rfl) 30 (by
+      have : 30 < 8 * (1 + natProd [1, 2, 1] * 3) := by decide
+      simp only [exContent, List.getD_cons_zero, List.getD_cons_succ]
+      omega) none
+
+
+/-! ## Text files down to the bytes
+
+`Model/C09Csv.lean`: the rows `to_csv(sep=" ", header=False, index=False)` writes after the data line
+(`textBytes`: an empty first entry, a blank, the values separated by blanks, `\n`; then the footer),
+and the model of `read_csv(sep=" ", skipinitialspace=True, comment="#", nrows=nodes, dtype=float64)` on the
+bytes that follow the data line (`csvBody`: lines, the C tokenizer, conversion with empty fields as
+NaN); `readText` takes the first `nodes` records, pads short ones with NaN and refuses long ones.
+`T : TextIO α` is the text of a number (`fmt`, `pfloat`), lawful on the values `P`; for short
+decimals it is modelled (`decIO`). -/
+
+/-- **The text of a short decimal reads back** (the number format of the text rows, modelled): for
+every rational with a terminating decimal expansion, the fixed-notation text `fmtDec` gives it
+(`-0.0009765625`, `121.0`, `1.5` - what `repr` / `numpy.astype(str)` print between 1e-4 and 1e16) is
+parsed by `parseDec` to exactly that rational; the text is not empty, ASCII, and has no blank, `#`
+or newline in it. -/
+theorem dec_text_roundtrip (x : Rat) (h : ShortDec x) :
+    parseDec (fmtDec x) = some x ∧ fmtDec x ≠ [] ∧
+      ∀ c ∈ fmtDec x, c ≠ ' ' ∧ c ≠ '#' ∧ c ≠ '\n' ∧ c.toNat < 128 :=
+  ⟨decIO_lawful.parse_fmt x h, (decIO_lawful.clean x h).1, (decIO_lawful.clean x h).2⟩
+
+/-- short decimals exist and are decided by evaluation: 3/2, -1/1024, 121, 0; 1/3 is none -/
+example : ShortDec (3 / 2) ∧ ShortDec (-1 / 1024) ∧ ShortDec 121 ∧ ShortDec 0 ∧ ¬ ShortDec (1 / 3) := by
+  refine ⟨?_, ?_, ?_, ?_, ?_⟩ <;> decide +kernel
+
+/-- the text itself, evaluated -/
+example : fmtDec (-1 / 1024) = "-0.0009765625".toList ∧ fmtDec 121 = "121.0".toList := by
+  constructor <;> decide +kernel
+
+/-- **The rows of a text file read back, byte for byte**: the model of `read_csv` run on the bytes
+`to_csv` wrote for any list of non-empty rows of values `T` can carry, followed by any footer of
+`#` lines, returns exactly those rows (and the footer lines as comments) - for every number of
+rows and columns. -/
+theorem text_rows_read_back {α} (T : TextIO α) (P : α → Prop) (L : T.LawfulOn P) (nan : α)
+    (rows : List (List α)) (footer : List String)
+    (hne : ∀ r ∈ rows, r ≠ []) (hv : ∀ r ∈ rows, ∀ v ∈ r, P v) (Fo : FooterOk footer) :
+    csvBody T nan (textBytes T rows footer) = (rows, footer) :=
+  csvBody_textBytes T P L nan rows footer ⟨hne, hv⟩ Fo
+
+/-- rows of short decimals, two columns, with the footer of a text file -/
+example : csvBody decIO 0 (textBytes decIO [[3 / 2, -2], [1 / 1000, 121]] (footerLines ["Text"]))
+    = ([[3 / 2, -2], [1 / 1000, 121]], footerLines ["Text"]) := by
+  apply text_rows_read_back decIO ShortDec decIO_lawful
+  · intro r hr; simp only [List.mem_cons, List.mem_nil_iff, or_false] at hr
+    rcases hr with rfl | rfl <;> simp
+  · intro r hr v hv
+    simp only [List.mem_cons, List.mem_nil_iff, or_false] at hr
+    rcases hr with rfl | rfl <;>
+      (simp only [List.mem_cons, List.mem_nil_iff, or_false] at hv; rcases hv with rfl | rfl <;> decide +kernel)
+  · exact footerOk_text
+
+/-- **The values of the rows of a written text file are the field's values** (and the zero of
+`extend_scalar`): a predicate that holds for every entry of the array and for zero holds for every
+value the writer puts into a row. -/
+theorem written_rows_values {α} (c : Codec α) (f : OField α) (e : Bool) (P : α → Prop)
+    (hP : ∀ idx, P (f.arr.get idx)) (h0 : P c.zero) : ∀ r ∈ textRows c f e, ∀ v ∈ r, P v :=
+  written_rows_values' c f e P hP h0
+
+/-- **Byte level, all three representations**: `_from_ovf` run on the bytes `_to_ovf` wrote - header,
+then check value and payload for `bin4` / `bin8`, or the rows `to_csv` wrote and the footer for `txt`,
+read by the model of `read_csv` - sees exactly the file the writer assembled.  For `txt` the values of
+the field (and the zero of `extend_scalar`) have to be values the number format `T` round-trips
+(`P`); nothing is assumed about pandas any more. -/
+theorem written_bytes_read_all {α} [DecidableEq α] (N : NumIO) (LN : N.Lawful) (T : TextIO α) (P : α → Prop)
+    (LT : T.LawfulOn P) (c : Codec α) (isWord : Char → Bool) (reserved : String → Bool)
+    (f : OField α) (V : Valid f) (rep : String) (extend : Bool) (F : OvfFile α)
+    (hF : toOvf c f rep extend = .ok F) (Tx : WrittenTextOk f (extend && f.nvdim == 1))
+    (hP : ∀ idx, P (f.arr.get idx)) (h0 : P c.zero) (side : Option (List (String × Region))) :
+    fromOvfBytesT N T c isWord reserved (fileBytesT N T F) side = fromOvf c isWord reserved F side := by
+  have hF' : toOvfE c f rep (extend && f.nvdim == 1) = .ok F := hF
+  have he : (extend && f.nvdim == 1) = true → f.nvdim = 1 := by
+    intro h; simp only [Bool.and_eq_true, beq_iff_eq] at h; exact h.2
+  obtain ⟨labels, rw, K, _, _, hrw⟩ := written_fileOk N c f rep _ F hF' Tx
+  obtain ⟨_, _, _, _, _, _, hbody⟩ := toOvfE_shape c f rep _ F hF'
+  rcases hbody with ⟨b, hb, hne⟩ | ⟨_, _, _, ht⟩
+  · exact fromOvfBytesT_bin N LN T c isWord reserved F _ rw K ((repWords_ok rep rw hrw).2.mpr hne) b hb side
+  · subst ht
+    have hbin : isBinary rw = false := by
+      cases h : isBinary rw with
+      | false => rfl
+      | true => exact absurd rfl ((repWords_ok "txt" rw hrw).2.mp h)
+    exact fromOvfBytesT_text N LN T P LT c isWord reserved F _ rw K hbin _ _
+      (toOvfE_txt_body c f V _ F hF') (rowsOk_written T P c f V _ he hP h0) footerOk_text side
+
+/-- **Round trip on bytes, all representations at once** (`txt` included): the bytes `to_file` writes
+are read back by the byte-level reader - with the text rows parsed by the model of `read_csv` - to
+the field of `roundtrip_all`: same region corners, mesh unit, cell counts, `valuedim`, unit,
+subregions through the side-car file, labels, and every value in its own cell and component
+(unchanged for text and bin8, float32-rounded for bin4, `(v, 0, 0)` for an extended scalar). -/
+theorem roundtrip_all_bytesT {α} [DecidableEq α] (N : NumIO) (LN : N.Lawful) (T : TextIO α) (P : α → Prop)
+    (LT : T.LawfulOn P) (c : Codec α) (narrow : α → α) (L : c.Lawful narrow)
+    (isWord : Char → Bool) (W : WordClass isWord) (reserved : String → Bool)
+    (f : OField α) (V : Valid f) (hl : LabelsOk isWord reserved f) (hu : UnitOk f.unit)
+    (hs : ∀ p ∈ f.mesh.subs, ∃ i j, SubOf f.mesh p.2 i j)
+    (rep : String) (w : Nat) (hrep : RepOk rep w) (extend withSide : Bool)
+    (Tx : WrittenTextOk f (extend && f.nvdim == 1))
+    (hP : ∀ idx, P (f.arr.get idx)) (h0 : P c.zero) :
+    ∃ B g, toOvfBytesT N T c f rep extend = .ok B ∧
+      fromOvfBytesT N T c isWord reserved B (if withSide then some (saveSub f.mesh) else none) = .ok g ∧
+      g.mesh.region.pmin = f.mesh.region.pmin ∧ g.mesh.region.pmax = f.mesh.region.pmax ∧
+      g.mesh.region.units = f.mesh.region.units ∧ g.mesh.n = f.mesh.n ∧
+      g.nvdim = writeDim f extend ∧ g.unit = f.unit ∧
+      g.mesh.subs.map (fun p => (p.1, p.2.pmin, p.2.pmax))
+        = (if withSide then f.mesh.subs.map (fun p => (p.1, p.2.pmin, p.2.pmax)) else []) ∧
+      ((extend && f.nvdim == 1) = true → g.vdims = some ["x", "y", "z"]) ∧
+      ((extend && f.nvdim == 1) = false → 1 < f.nvdim → g.vdims = f.vdims) ∧
+      ∀ i j k cc, i < f.mesh.nAt 0 → j < f.mesh.nAt 1 → k < f.mesh.nAt 2 → cc < writeDim f extend →
+        g.arr.get [i, j, k, cc] = conv narrow w
+          (if (extend && f.nvdim == 1) then (if cc = 0 then f.arr.get [i, j, k, 0] else c.zero)
+           else f.arr.get [i, j, k, cc]) := by
+  obtain ⟨F, g, hF, hg, rest⟩ := roundtrip_all c narrow L isWord W reserved f V hl hu hs rep w hrep extend withSide
+  refine ⟨fileBytesT N T F, g, ?_, ?_, rest⟩
+  · unfold toOvfBytesT; rw [hF]
+  · rw [written_bytes_read_all N LN T P LT c isWord reserved f V rep extend F hF Tx hP h0 _, hg]
+
+/-- **A text data section with too few records is rejected** (structured level, any file): fewer
+records than the mesh has cells, the first with at most `valuedim` fields. -/
+theorem short_rows_rejected {α} [DecidableEq α] (c : Codec α) (isWord : Char → Bool)
+    (reserved : String → Bool) (F : OvfFile α) (side : Option (List (String × Region)))
+    (rows : List (List α)) (footer : List String) (hbody : F.body = .text rows footer)
+    (hshort : ∀ h ws mesh vd, scan F.lines [] = some (h, ws) → readMesh h = .ok mesh →
+      valueDim F.first h = .ok vd → rows.length < natProd mesh.n ∧ (rows.headD []).length ≤ vd) :
+    ∃ e, fromOvf c isWord reserved F side = .error e :=
+  short_rows_rejected' c isWord reserved F side rows footer hbody hshort
+
+/-- **Truncation points of a written text file**: the bytes of a `txt` file written by `_to_ovf`, cut
+after any number `t` of bytes up to the start of the last row - inside the first line, between or
+inside header lines, in the data line, between rows, inside a row, inside a number - are never read
+into a field.  (A cut inside the *last* row can be read: see `text_cut_in_last_row_accepted`; from
+the end of the rows on the file reads as the whole file: `text_cut_after_rows_same_field`.) -/
+theorem text_truncation_rejected {α} [DecidableEq α] (N : NumIO) (LN : N.Lawful) (T : TextIO α) (P : α → Prop)
+    (LT : T.LawfulOn P) (c : Codec α) (isWord : Char → Bool) (reserved : String → Bool)
+    (f : OField α) (V : Valid f) (extend : Bool) (F : OvfFile α)
+    (hF : toOvf c f "txt" extend = .ok F) (Tx : WrittenTextOk f (extend && f.nvdim == 1))
+    (hP : ∀ idx, P (f.arr.get idx)) (h0 : P c.zero)
+    (t : Nat) (ht : t ≤ (headerBytes N F).length
+      + (rowsBytes T (textRows c f (extend && f.nvdim == 1)).dropLast).length)
+    (side : Option (List (String × Region))) :
+    ∃ e, fromOvfBytesT N T c isWord reserved ((fileBytesT N T F).take t) side = .error e := by
+  have hF' : toOvfE c f "txt" (extend && f.nvdim == 1) = .ok F := hF
+  have he : (extend && f.nvdim == 1) = true → f.nvdim = 1 := by
+    intro h; simp only [Bool.and_eq_true, beq_iff_eq] at h; exact h.2
+  generalize (extend && f.nvdim == 1) = e at hF' he Tx ht
+  obtain ⟨labels, rw, K, hlines, hfirst, hrw⟩ := written_fileOk N c f "txt" e F hF' Tx
+  have hbody := toOvfE_txt_body c f V e F hF'
+  have hbin : isBinary rw = false := by
+    cases h : isBinary rw with
+    | false => rfl
+    | true => exact absurd rfl ((repWords_ok "txt" rw hrw).2.mp h)
+  obtain ⟨_, huni, hlen⟩ := textRows_flatten c f V e he
+  have hwd : 0 < writeDim f e := by rw [writeDim_e f e he]; split <;> [omega; exact V.nv]
+  have R := rowsOk_written T P c f V e he hP h0
+  have hfile : fileBytesT N T F = headerBytes N F ++ textBytes T (textRows c f e) (footerLines ["Text"]) := by
+    unfold fileBytesT; rw [hbody]
+  unfold fromOvfBytesT
+  rw [hfile]
+  rcases take_append_cases (headerBytes N F) (textBytes T (textRows c f e) (footerLines ["Text"])) t
+    with ⟨hlt, e1⟩ | ⟨hge, e1⟩
+  · rw [e1]
+    exact header_prefix_rejected N LN _ (csvBody_nil T c.nan) c isWord reserved F _ rw K _ (List.take_prefix _ _)
+      (fun h => by
+        have := congrArg List.length h
+        rw [List.length_take] at this
+        omega) side
+  · rw [e1, fromOvfBytes_text_tail N LN _ c isWord reserved F _ rw K hbin _ side]
+    -- the tail is a prefix of the bytes of all rows but the last
+    have htail : (textBytes T (textRows c f e) (footerLines ["Text"])).take (t - (headerBytes N F).length)
+        <+: rowsBytes T (textRows c f e).dropLast := by
+      obtain ⟨x, hx⟩ := rowsBytes_dropLast_prefix T (textRows c f e)
+      rw [textBytes_split, ← hx, List.append_assoc, List.take_append_of_le_length (by omega)]
+      exact List.take_prefix _ _
+    have Rd : RowsOk T P (textRows c f e).dropLast :=
+      ⟨fun r hr => R.ne r (List.dropLast_subset _ hr), fun r hr => R.vals r (List.dropLast_subset _ hr)⟩
+    have hcount := csvBody_prefix_count T P LT c.nan _ Rd _ htail
+    have hhead := csvBody_prefix_head T P LT c.nan _ Rd (writeDim f e) hwd
+      (fun r hr => huni r (List.dropLast_subset _ hr)) _ htail
+    apply short_rows_rejected' c isWord reserved _ side _ _ rfl
+    intro h ws mesh vd hscan hmesh hvd
+    simp only at hscan hvd
+    rw [hlines, scan_written] at hscan
+    injection hscan with hscan
+    injection hscan with h1 h2
+    subst h1
+    rw [hfirst, valueDim_written] at hvd
+    injection hvd with hvd
+    rw [readMesh_ok _ _ _ _ _ _ (headerOf_written f e labels) V.lt V.npos (fun a _ => rfl)] at hmesh
+    injection hmesh with hmesh
+    subst hvd; subst hmesh
+    have hn : (meshOf f.mesh.region.lo f.mesh.region.hi f.mesh.nAt (f.mesh.region.units.getD 0 "")).n
+        = [f.mesh.nAt 0, f.mesh.nAt 1, f.mesh.nAt 2] := rfl
+    rw [hn]
+    have hnpos : 0 < natProd [f.mesh.nAt 0, f.mesh.nAt 1, f.mesh.nAt 2] := by
+      apply natProd_pos
+      intro m hm
+      simp only [List.mem_cons, List.mem_nil_iff, or_false] at hm
+      rcases hm with rfl | rfl | rfl
+      · exact V.npos 0 (by omega)
+      · exact V.npos 1 (by omega)
+      · exact V.npos 2 (by omega)
+    refine ⟨?_, hhead⟩
+    rw [List.length_dropLast, hlen] at hcount
+    omega
+
+/-- **From the end of the rows on, a cut changes nothing** (text files): the bytes of a written `txt`
+file cut anywhere at or after the newline of the last row (inside the footer) read to exactly what
+the whole file reads to. -/
+theorem text_cut_after_rows_same_field {α} [DecidableEq α] (N : NumIO) (LN : N.Lawful) (T : TextIO α)
+    (P : α → Prop) (LT : T.LawfulOn P) (c : Codec α) (isWord : Char → Bool) (reserved : String → Bool)
+    (f : OField α) (V : Valid f) (extend : Bool) (F : OvfFile α)
+    (hF : toOvf c f "txt" extend = .ok F) (Tx : WrittenTextOk f (extend && f.nvdim == 1))
+    (hP : ∀ idx, P (f.arr.get idx)) (h0 : P c.zero)
+    (t : Nat) (ht : (headerBytes N F).length + (rowsBytes T (textRows c f (extend && f.nvdim == 1))).length ≤ t)
+    (side : Option (List (String × Region))) :
+    fromOvfBytesT N T c isWord reserved ((fileBytesT N T F).take t) side
+      = fromOvfBytesT N T c isWord reserved (fileBytesT N T F) side := by
+  rw [written_bytes_read_all N LN T P LT c isWord reserved f V "txt" extend F hF Tx hP h0 side]
+  have hF' : toOvfE c f "txt" (extend && f.nvdim == 1) = .ok F := hF
+  have he : (extend && f.nvdim == 1) = true → f.nvdim = 1 := by
+    intro h; simp only [Bool.and_eq_true, beq_iff_eq] at h; exact h.2
+  generalize (extend && f.nvdim == 1) = e at hF' he Tx ht
+  obtain ⟨labels, rw, K, hlines, hfirst, hrw⟩ := written_fileOk N c f "txt" e F hF' Tx
+  have hbody := toOvfE_txt_body c f V e F hF'
+  have hbin : isBinary rw = false := by
+    cases h : isBinary rw with
+    | false => rfl
+    | true => exact absurd rfl ((repWords_ok "txt" rw hrw).2.mp h)
+  have R := rowsOk_written T P c f V e he hP h0
+  have hfile : fileBytesT N T F = headerBytes N F ++ textBytes T (textRows c f e) (footerLines ["Text"]) := by
+    unfold fileBytesT; rw [hbody]
+  unfold fromOvfBytesT
+  rw [hfile]
+  rcases take_append_cases (headerBytes N F) (textBytes T (textRows c f e) (footerLines ["Text"])) t
+    with ⟨hlt, _⟩ | ⟨hge, e1⟩
+  · omega
+  · rw [e1, fromOvfBytes_text_tail N LN _ c isWord reserved F _ rw K hbin _ side]
+    have hsplit : (textBytes T (textRows c f e) (footerLines ["Text"])).take (t - (headerBytes N F).length)
+        = rowsBytes T (textRows c f e) ++ ((footerLines ["Text"]).flatMap
+            (fun l => utf8Enc l.toList ++ [10])).take (t - (headerBytes N F).length - (rowsBytes T (textRows c f e)).length) := by
+      rw [textBytes_split, List.take_append, List.take_of_length_le (by omega)]
+    rw [hsplit, csvBody_rows_then T P LT c.nan _ R _
+      (csvLines_footer_prefix _ footerOk_text _ (List.take_prefix _ _))]
+    exact fromOvf_text_congr c isWord reserved F _ _ _ _ hbody (fun _ _ _ _ _ _ => rfl) side
+
+
+/-- **A cut inside the last row of a text file can be read - with a wrong value** (negative theorem:
+why the property confines "every truncation point is rejected" to binary files, and why
+`text_truncation_rejected` stops at the start of the last row).  The example field written as text is
+597 bytes long, its rows end at byte 565; cut after 563 bytes - in the middle of the last number, `12`
+left of `122` - the file is read into a field whose last value is 12.  (The real reader does the
+same: observation `text-cut`, not a violation.) -/
+theorem text_cut_in_last_row_accepted :
+    toOvfBytesT toyNum toyTextIO toyCodec exField "txt" false = .ok exTextBytes ∧ exTextBytes.length = 597 ∧
+    exField.arr.get [1, 0, 2, 2] = 122 ∧
+    ∃ g, fromOvfBytesT toyNum toyTextIO toyCodec isWordC (fun _ => false) (exTextBytes.take 563) none = .ok g ∧
+      g.arr.get [1, 0, 2, 2] = 12 := by
+  refine ⟨?_, by decide +kernel, rfl, exCutVal_ok 563 12 (by decide +kernel)⟩
+  unfold exTextBytes
+  cases h : toOvfBytesT toyNum toyTextIO toyCodec exField "txt" false with
+  | ok b => rfl
+  | error e =>
+    exfalso
+    have : (match toOvfBytesT toyNum toyTextIO toyCodec exField "txt" false with
+      | .ok _ => true | .error _ => false) = true := by decide +kernel
+    rw [h] at this
+    cases this
+
+/-- the text-file theorems apply to the example field with the toy codecs: every value is one the
+text codec carries, and every byte offset up to 552 (the start of the last row; the header is 499 bytes
+long) is a truncation point below the bound -/
+example : ∀ t, t ≤ 552 → ∃ e, fromOvfBytesT toyNum toyTextIO toyCodec isWordC (fun s => s == "norm")
+    (exTextBytes.take t) none = .error e := by
+  intro t ht
+  obtain ⟨F, g, hF, _⟩ := roundtrip_all toyCodec id toyCodec_lawful isWordC isWordC_class (fun s => s == "norm") exField
+    exField_valid exField_labels exField_unit (by intro p hp; cases hp) "txt" 0 (Or.inl ⟨rfl, rfl⟩) false false
+  have hB : exTextBytes = fileBytesT toyNum toyTextIO F := by
+    unfold exTextBytes toOvfBytesT
+    rw [hF]
+  rw [hB]
+  apply text_truncation_rejected toyNum toyNum_lawful toyTextIO (fun _ => True) toyTextIO_lawful toyCodec isWordC
+    (fun s => s == "norm") exField exField_valid false F hF exField_text (fun _ => trivial) trivial t
+  have : 552 ≤ (headerBytes toyNum F).length + (rowsBytes toyTextIO (textRows toyCodec exField (false && exField.nvdim == 1)).dropLast).length := by
+    have hh : (headerBytes toyNum F).length + (textBytes toyTextIO (textRows toyCodec exField false) (footerLines ["Text"])).length = 597 := by
+      have := text_cut_in_last_row_accepted.2.1
+      rw [hB] at this
+      unfold fileBytesT at this
+      rw [toOvfE_txt_body toyCodec exField exField_valid _ F hF] at this
+      simpa using this
+    have h2 : (textBytes toyTextIO (textRows toyCodec exField false) (footerLines ["Text"])).length = 98 := by decide +kernel
+    have h3 : (rowsBytes toyTextIO (textRows toyCodec exField (false && exField.nvdim == 1)).dropLast).length = 53 := by
+      decide +kernel
+    omega
+  omega
+
+
+/-- **Text files with nothing trusted but the header numbers**: with the driver's IEEE codec and the
+modelled decimal text (`decV`: `fmtDec` / `parseDec` on binary64 values), for every field of binary64
+values that are short decimals (the harness's exact regime: integers and dyadic fractions), all
+three representations, `extend_scalar` on or off, with or without the side-car file: the bytes
+`to_file` writes are read back by the byte-level reader to the same cell counts, component count and
+unit, and every value comes back as the same number (text, bin8) or its float32 rounding (bin4).
+pandas' `to_csv` / `read_csv` are no longer a trusted pair here - their text is produced and
+consumed by the model, and compared with the real bytes on every run. -/
+theorem roundtrip_all_bytes_dec (N : NumIO) (LN : N.Lawful)
+    (isWord : Char → Bool) (W : WordClass isWord) (reserved : String → Bool)
+    (f : OField V64) (V : Valid f) (hl : LabelsOk isWord reserved f) (hu : UnitOk f.unit)
+    (hs : ∀ p ∈ f.mesh.subs, ∃ i j, SubOf f.mesh p.2 i j)
+    (rep : String) (w : Nat) (hrep : RepOk rep w) (withSide : Bool)
+    (Tx : WrittenTextOk f false) (hdec : ∀ idx, ShortDec (f.arr.get idx).val) :
+    ∃ B g, toOvfBytesT N decV ieeeV f rep false = .ok B ∧
+      fromOvfBytesT N decV ieeeV isWord reserved B (if withSide then some (saveSub f.mesh) else none) = .ok g ∧
+      g.mesh.n = f.mesh.n ∧ g.nvdim = f.nvdim ∧ g.unit = f.unit ∧
+      ∀ i j k cc, i < f.mesh.nAt 0 → j < f.mesh.nAt 1 → k < f.mesh.nAt 2 → cc < f.nvdim →
+        g.arr.get [i, j, k, cc] = (if w = 4 then narrowV (f.arr.get [i, j, k, cc]) else f.arr.get [i, j, k, cc]) := by
+  have h0 : ShortDec (ieeeV.zero).val := by
+    show ShortDec 0
+    decide +kernel
+  obtain ⟨B, g, h1, h2, _, _, _, hn, hnv, hun, _, _, _, hd⟩ :=
+    roundtrip_all_bytesT N LN decV (fun v => ShortDec v.val) decV_lawful ieeeV narrowV ieeeV_lawful isWord W reserved
+      f V hl hu hs rep w hrep false withSide (by simpa using Tx) hdec h0
+  have hwd : writeDim f false = f.nvdim := by simp [writeDim]
+  refine ⟨B, g, h1, h2, hn, by rw [hnv, hwd], hun, ?_⟩
+  intro i j k cc hi hj hk hcc
+  have := hd i j k cc hi hj hk (by rw [hwd]; exact hcc)
+  simpa [conv] using this
+
+
+/-- `roundtrip_all_bytes_dec` applies: on the example mesh, the field of binary64 zeros is a field of
+short decimals (and so is every field of integers or dyadic fractions: `shortDec_of_scale`) -/
+example : ∃ f : OField V64, Valid f ∧ LabelsOk isWordC (fun s => s == "norm") f ∧ UnitOk f.unit ∧
+    ∀ idx, ShortDec (f.arr.get idx).val :=
+  ⟨{ mesh := exField.mesh, nvdim := 3, arr := ⟨[2, 1, 3, 3], fun _ => ieeeV.zero⟩, vdims := exField.vdims,
+     unit := exField.unit },
+   { pmin3 := exField_valid.pmin3, pmax3 := exField_valid.pmax3, n3 := exField_valid.n3, lt := exField_valid.lt,
+     npos := exField_valid.npos, units := exField_valid.units, nv := exField_valid.nv, shape := rfl },
+   exField_labels, exField_unit, fun _ => (by decide +kernel : ShortDec 0)⟩
+
+/-- dyadic fractions are short decimals by `shortDec_of_scale`: 4095/1024 with ten digits after the point -/
+example : ShortDec (4095 / 1024) := shortDec_of_scale _ 10 (by decide +kernel) (by decide +kernel)
+
+
+/-- **Foreign text files at byte level**: the bytes of a text file of the independent OVF 1.0 / 2.0
+writer - header, one row per node with the values separated by blanks, footer - are read by the
+byte-level reader, the rows parsed by the model of `read_csv`, to that writer's content: node counts,
+region, mesh unit, component count, and every value in its own cell and component, unchanged. -/
+theorem reader_v1_v2_txt_bytes {α} [DecidableEq α] (N : NumIO) (LN : N.Lawful) (T : TextIO α) (P : α → Prop)
+    (LT : T.LawfulOn P) (c : Codec α) (isWord : Char → Bool) (reserved : String → Bool) (v2 : Bool)
+    (x : Content α) (hm : TextOk x.meshunit.toList)
+    (hstep : ∀ a, a < 3 → 0 < x.step.getD a 0) (hn : ∀ a, a < 3 → 0 < x.nodes.getD a 0)
+    (hvd : 0 < x.vd) (hv1 : v2 = false → x.vd = 3)
+    (hcount : x.values.length = natProd [x.nodes.getD 0 0, x.nodes.getD 1 0, x.nodes.getD 2 0] * x.vd)
+    (hP : ∀ v ∈ x.values, P v) (h0 : P c.zero) :
+    ∃ g, fromOvfBytesT N T c isWord reserved (fileBytesT N T (refWriter c v2 0 x)) none = .ok g ∧
+      g.mesh.n = [x.nodes.getD 0 0, x.nodes.getD 1 0, x.nodes.getD 2 0] ∧
+      g.mesh.region.pmin = [x.lo 0, x.lo 1, x.lo 2] ∧ g.mesh.region.pmax = [x.hi 0, x.hi 1, x.hi 2] ∧
+      g.mesh.region.units = [x.meshunit, x.meshunit, x.meshunit] ∧ g.nvdim = x.vd ∧
+      ∀ i j k cc, i < x.nodes.getD 0 0 → j < x.nodes.getD 1 0 → k < x.nodes.getD 2 0 → cc < x.vd →
+        g.arr.get [i, j, k, cc]
+          = x.values.getD (pos (x.nodes.getD 0 0) (x.nodes.getD 1 0) x.vd i j k cc) c.zero := by
+  obtain ⟨g, hg, h1, h2, h3, h4, h5, _, _, h8⟩ :=
+    reader_v1_v2_txt c isWord reserved v2 x hstep hn hvd hv1 hcount
+  refine ⟨g, ?_, h1, h2, h3, h4, h5, h8⟩
+  have hbody : (refWriter c v2 0 x).body = .text
+      (tab (x.values.length / x.vd) fun r => tab x.vd fun k => x.values.getD (r * x.vd + k) c.zero)
+      ["# End: Data Text", "# End: Segment"] := by
+    simp [refWriter]
+  have R : RowsOk T P (tab (x.values.length / x.vd) fun r => tab x.vd fun k => x.values.getD (r * x.vd + k) c.zero) := by
+    constructor
+    · intro r hr hnil
+      obtain ⟨a, _, rfl⟩ := mem_tab _ _ _ hr
+      have := congrArg List.length hnil
+      simp at this
+      omega
+    · intro r hr v hv
+      obtain ⟨a, _, rfl⟩ := mem_tab _ _ _ hr
+      obtain ⟨b, _, rfl⟩ := mem_tab _ _ _ hv
+      rw [List.getD_eq_getElem?_getD]
+      cases hk : x.values[a * x.vd + b]? with
+      | none => exact h0
+      | some y => exact hP y (List.mem_of_getElem? hk)
+  have Fo : FooterOk ["# End: Data Text", "# End: Segment"] := by
+    intro l hl
+    simp only [List.mem_cons, List.mem_nil_iff, or_false] at hl
+    rcases hl with rfl | rfl
+    · exact ⟨by decide, by decide⟩
+    · exact ⟨by decide, by decide⟩
+  rw [fromOvfBytesT_text N LN T P LT c isWord reserved _ _ _ (refWriter_fileOk N c v2 0 x hm)
+    (by decide +kernel : isBinary (refWords 0) = false) _ _ hbody R Fo none]
+  exact hg
+
+/-! ## More non-vacuity (second round) -/
+
+/-- `writer_accepts_iff` on the example field: the right-hand side holds, so a file is produced -/
+example : ∃ F, toOvf toyCodec exField "bin8" true = .ok F :=
+  (writer_accepts_iff toyCodec exField "bin8" true).mpr
+    ⟨by decide, Or.inr (Or.inr rfl), by decide, Or.inr (by decide), fun _ h => absurd h (by decide)⟩
+
+/-- `unit_roundtrip_iff` on the example field (unit `A/m`) and on a unit with a blank -/
+example : recoverUnit (valueUnits exField false) = exField.unit :=
+  (unit_roundtrip_iff exField false (by decide)).mpr exField_unit
+example : recoverUnit (valueUnits { exField with unit := some "A / m" } false) ≠ some "A / m" := by
+  intro h
+  have := (unit_roundtrip_iff { exField with unit := some "A / m" } false (by decide)).mp h
+  exact absurd (this.1.2 ' ' (by decide)) (by decide)
+
+/-- `binary_accepted_iff` / `accepted_has_keys` / `reader_v1_v2_bytes` apply to the reference writer's
+file of `exContent` (OVF 1.0, 8-byte values): it is accepted, so its data section has all
+`8·(1 + 2·3)` bytes and its header has the required keys -/
+example : ∃ g, fromOvfBytes toyNum toyText toyCodec isWordC (fun _ => false)
+    (fileBytes toyNum (refWriter toyCodec false 8 exContent)) none = .ok g ∧ g.arr.get [0, 1, 0, 2] = 6 := by
+  obtain ⟨g, hg, _, _, _, _, _, _, _, hd⟩ := reader_v1_v2_bytes toyNum toyNum_lawful toyText toyCodec id toyCodec_lawful
+    isWordC (fun _ => false) false 8 (Or.inr rfl) exContent (textOk_of_B _ (by decide))
+    (by intro a ha; match a, ha with | 0, _ => decide +kernel | 1, _ => decide +kernel | 2, _ => decide +kernel)
+    (by intro a ha; match a, ha with | 0, _ => decide | 1, _ => decide | 2, _ => decide)
+    (by decide) (fun _ => rfl) (by decide)
+  refine ⟨g, hg, ?_⟩
+  have := hd 0 1 0 2 (by decide) (by decide) (by decide) (by decide)
+  rw [this]; rfl
+
+/-- `reader_v1_v2_txt_bytes` applies to the same content as a text file, with the toy text codec -/
+example : ∃ g, fromOvfBytesT toyNum toyTextIO toyCodec isWordC (fun _ => false)
+    (fileBytesT toyNum toyTextIO (refWriter toyCodec true 0 exContent)) none = .ok g ∧ g.arr.get [0, 1, 0, 2] = 6 := by
+  obtain ⟨g, hg, _, _, _, _, _, hd⟩ := reader_v1_v2_txt_bytes toyNum toyNum_lawful toyTextIO (fun _ => True)
+    toyTextIO_lawful toyCodec isWordC (fun _ => false) true exContent (textOk_of_B _ (by decide))
+    (by intro a ha; match a, ha with | 0, _ => decide +kernel | 1, _ => decide +kernel | 2, _ => decide +kernel)
+    (by intro a ha; match a, ha with | 0, _ => decide | 1, _ => decide | 2, _ => decide)
+    (by decide) (fun h => by cases h) (by decide) (fun _ _ => trivial) trivial
+  refine ⟨g, hg, ?_⟩
+  have := hd 0 1 0 2 (by decide) (by decide) (by decide) (by decide)
+  rw [this]; rfl
+
+
+/-- `binary_accepted_iff` applies to the reference writer's OVF 1.0 file of `exContent` (header of
+`headerOf_ref`, data line `Binary 8`, three components): with a data section of ten bytes the
+right-hand side fails - `8·(1 + 2·3) = 56 > 10` - so the file is rejected -/
+example : ¬ ∃ g, fromOvf toyCodec isWordC (fun _ => false)
+    ({ refWriter toyCodec false 8 exContent with body := .bin (List.replicate 10 7) } : OvfFile Nat) none = .ok g := by
+  have hs := scan_ref toyCodec false 8 exContent
+  rw [if_neg (by decide)] at hs
+  rw [binary_accepted_iff toyCodec isWordC (fun _ => false)
+    ({ refWriter toyCodec false 8 exContent with body := .bin (List.replicate 10 7) } : OvfFile Nat)
+    (refHeader false exContent) exContent.lo exContent.hi (fun a => exContent.step.getD a 0)
+    (fun a => exContent.nodes.getD a 0) exContent.meshunit (headerOf_ref false exContent)
+    (by intro a ha; match a, ha with | 0, _ => decide +kernel | 1, _ => decide +kernel | 2, _ => decide +kernel)
+    (by intro a ha; match a, ha with | 0, _ => decide | 1, _ => decide | 2, _ => decide)
+    (by intro a ha; match a, ha with | 0, _ => decide +kernel | 1, _ => decide +kernel | 2, _ => decide +kernel)
+    ["Binary", "8"] hs (by decide +kernel) 8 (by decide +kernel) 3
+    (valueDim_ref toyCodec false 8 exContent (fun _ => rfl)) _ rfl]
+  intro h
+  have := h.2.2.2.1
+  revert this
+  decide
+
+
+
+/-! ## Acceptance of the reshape and of the labels -/
+
+/-- **The reader's reshape accepts exactly the right number of values**: `reshape((*reversed(n),
+valuedim))` succeeds **iff** the data block holds `prod(n)·valuedim` values - one more or one fewer
+and no field is returned. -/
+theorem unflatten_ok_iff {α} (n : List Nat) (vd : Nat) (flat : List α) (d : α) :
+    (∃ arr, unflatten n vd flat d = .ok arr) ↔ flat.length = natProd n * vd := by
+  unfold unflatten
+  rw [natProd_append1, natProd_reverse]
+  constructor
+  · rintro ⟨arr, h⟩
+    split at h
+    · cases h
+    · rename_i hne; simpa using hne
+  · intro h
+    rw [if_neg (by simpa using h)]
+    exact ⟨_, rfl⟩
+
+/-- **Payload round trip, total form** (no hypothesis on an intermediate result): for an array of shape
+`(nx, ny, nz, nv)` the reader's reshape of the writer's payload succeeds, and every value is back in its
+own cell and component. -/
+theorem payload_roundtrip_total {α} (f : OField α) (nx ny nz nv : Nat) (hs : f.arr.shape = [nx, ny, nz, nv]) (d : α) :
+    ∃ arr, unflatten [nx, ny, nz] nv (flatPayload f) d = .ok arr ∧ arr.shape = f.arr.shape ∧
+      ∀ i j k c, i < nx → j < ny → k < nz → c < nv → arr.get [i, j, k, c] = f.arr.get [i, j, k, c] := by
+  obtain ⟨arr, harr⟩ := (unflatten_ok_iff [nx, ny, nz] nv (flatPayload f) d).mpr (by
+    rw [flatPayload_length f nx ny nz nv hs]; simp [natProd]; ring)
+  refine ⟨arr, harr, ?_, ?_⟩
+  · rw [(unflatten_get nx ny nz nv _ d arr harr 0 0 0 0).2, hs]
+  · intro i j k c hi hj hk hc
+    exact (payload_roundtrip f nx ny nz nv hs d arr harr i j k c hi hj hk hc).1
+
+/-- **Which recovered labels the `Field` constructor accepts** (the `vdims` setter, as an
+equivalence): for a non-empty list of labels read from `valuelabels`, the field is built **iff** there
+are exactly `valuedim` of them, all different, none the name of a `Field` attribute; the field then
+carries exactly these labels.  (`labelcount`, `label:norm` files of the harness are the refused side.) -/
+theorem labels_accepted_iff (reserved : String → Bool) (vd : Nat) (v : String) (vs : List String)
+    (r : Option (List String)) :
+    vdimsSetter reserved vd (some (v :: vs)) = .ok r ↔
+      (v :: vs).length = vd ∧ hasDup (v :: vs) = false ∧ (∀ x ∈ v :: vs, reserved x = false) ∧ r = some (v :: vs) := by
+  simp only [vdimsSetter]
+  constructor
+  · intro h
+    split at h
+    · cases h
+    · split at h
+      · cases h
+      · split at h
+        · cases h
+        · rename_i h1 h2 h3
+          injection h with h
+          refine ⟨by simpa using h1, by simpa using h2, ?_, h.symm⟩
+          intro x hx
+          have h3' : (v :: vs).any reserved = false := by simpa using h3
+          rw [List.any_eq_false] at h3'
+          simpa using h3' x hx
+  · rintro ⟨h1, h2, h3, rfl⟩
+    have : (v :: vs).any reserved = false := by
+      rw [List.any_eq_false]; intro x hx; rw [h3 x hx]; exact Bool.false_ne_true
+    rw [if_neg (by simpa using h1), h2, this]
+    simp
 
 
 end DFV.C09
